@@ -6,9 +6,22 @@ import os
 import vlib, ldpc, sessions
 
 
+def normalise(q):
+    """drv_multi implements the two plain submission APIs and roles 2-4 only: histories of the newer kinds (cumulative tables, a table
+    followed by single submissions, encode after decode) are brought back to those - both drivers then run the very same calls"""
+    if q.api not in (0, 1):
+        q.api = 1
+        q.esis = sorted(set(q.esis))
+    if q.role == 5:
+        q.role = 3
+    return q
+
+
 def strip(ans):
-    """tokens comparable between drv_dec (solo) and drv_multi: drop H, Y, LK, PM"""
-    toks = [t for t in ans.split()[1:] if not (t.startswith("H") or t.startswith("Y") or t.startswith("LK") or t.startswith("PM"))]
+    """tokens comparable between drv_dec (solo) and drv_multi: drop H (matrix, HL ledger), Y, LK, PM and the tokens only drv_dec prints
+    (GI: table fetched before any submission; PS: pointer stability across fetches)"""
+    toks = [t for t in ans.split()[1:] if not (t.startswith("H") or t.startswith("Y") or t.startswith("LK") or t.startswith("PM")
+                                                or t.startswith("GI") or t.startswith("PS"))]
     return " ".join(":".join(t.split(":")[:3]) if t[0] in "SF" and ":" in t else t for t in toks)     # drv_dec adds a state digest to S tokens
 
 
@@ -70,7 +83,7 @@ def run(c):
             ns = rng.rng(2, 3)
             reqs = []
             for _s in range(ns):
-                q = sessions.gen_requests(rng, 1, codecs=[rng.choice(cods)])[0]
+                q = normalise(sessions.gen_requests(rng, 1, codecs=[rng.choice(cods)])[0])
                 if q.k + q.r > 60:
                     q.k, q.r = rng.rng(2, 8), rng.rng(3, 8)
                     if q.codec == 3:
@@ -86,7 +99,7 @@ def run(c):
             groups.append((reqs, [rng.below(ns) for _ in range(total)], "M" if rng.chance(2, 3) else ""))
     for _ in range(60 if c.tier == "quick" else 600):
         ns = rng.rng(2, 4)
-        reqs = sessions.gen_requests(rng, 1, codecs=[rng.choice([1, 2, 3, 3, 5]) for _ in range(ns)])[:ns]
+        reqs = [normalise(q) for q in sessions.gen_requests(rng, 1, codecs=[rng.choice([1, 2, 3, 3, 5]) for _ in range(ns)])[:ns]]
         for q in reqs:
             if q.k + q.r > 200:
                 q.k, q.r = 10, 6
